@@ -81,6 +81,47 @@ pub fn handle(op: &str, a: &[&str]) -> Option<Resp> {
                 Err(_) => Some(Resp::ok("err".to_string())),
             }
         }
+        ("rel.field", [h]) => {
+            let f = crate::relspec::FieldA::dec(h)?;
+            let text = f.text();
+            let written = format!("{} {}", f.view_entries(), f.view_substvars());
+            let t1 = lossless_view(&text, true);
+            let t0 = lossless_view(&text, false);
+            let l = lossy_view(&text);
+            let wf = f.wf();
+            let mut fail = None;
+            if wf {
+                let want = format!("0 {}", written);
+                if !t1.starts_with("0 ") {
+                    fail = Some(format!("well-formed field rejected by the lossless reader (allow_substvar=true): {}", t1));
+                } else if t1 != want {
+                    fail = Some(format!("lossless accessors do not expose what was written: got {} want {}", t1, want));
+                } else if !f.has_substvar() {
+                    if t0 != t1 {
+                        fail = Some("substvar-free field read differently with allow_substvar=false".to_string());
+                    } else if l == "err" {
+                        fail = Some("well-formed substvar-free field rejected by the lossy reader".to_string());
+                    } else if l != format!("ok {}", f.view_entries()) {
+                        fail = Some(format!("lossy reader yields a different structure: got {} want ok {}", l, f.view_entries()));
+                    }
+                }
+            }
+            Some(Resp::with(
+                format!("{} W[{}] T1:{} T0:{} L:{} wf={}", es(&text), written, t1, t0, l, ebool(wf)),
+                fail,
+            ))
+        }
+        ("rel.lprint", [t]) => {
+            let s = ds(t)?;
+            match debian_control::lossy::Relations::from_str(&s) {
+                Ok(r) => Some(Resp::ok(format!("ok {}", es(&r.to_string())))),
+                Err(_) => Some(Resp::ok("err".to_string())),
+            }
+        }
+        ("rel.lossy", [t]) => {
+            let s = ds(t)?;
+            Some(Resp::ok(lossy_view(&s)))
+        }
         ("rel.view", [allow, t]) => {
             let s = ds(t)?;
             let (r, _errs) = Relations::parse_relaxed(&s, *allow == "1");
@@ -148,6 +189,77 @@ pub fn view_rel(r: &Relation) -> String {
     format!("name={};aq={};ver={};arch={};prof={}", nm, aq, ver, arch, prof)
 }
 
+/// lossless reader + accessors: `<#errors> E[{rel|rel}{rel}] S[<substvars>]`
+pub fn lossless_view(text: &str, allow: bool) -> String {
+    let (r, errs) = Relations::parse_relaxed(text, allow);
+    let mut s = format!("{} E[", errs.len());
+    for e in r.entries() {
+        s.push('{');
+        s.push_str(&e.relations().map(|r| view_rel(&r)).collect::<Vec<_>>().join("|"));
+        s.push('}');
+    }
+    let subst: Vec<String> = r.substvars().collect();
+    s.push_str(&format!("] S[{}]", elist(&subst)));
+    s
+}
+
+/// `lossy::Relations::from_str`: `ok E[…]` (same relation format as `view_rel`) or `err`
+pub fn lossy_view(text: &str) -> String {
+    use debian_control::relations::BuildProfile;
+    match debian_control::lossy::Relations::from_str(text) {
+        Err(_) => "err".to_string(),
+        Ok(rs) => {
+            let mut s = String::from("ok E[");
+            for e in rs.0.iter() {
+                s.push('{');
+                s.push_str(
+                    &e.iter()
+                        .map(|r| {
+                            let ver = match &r.version {
+                                None => "none".to_string(),
+                                Some((vc, v)) => format!("{}:{}", vc, enc_version(v)),
+                            };
+                            let arch = match &r.architectures {
+                                None => "none".to_string(),
+                                Some(l) => format!("[{}]", elist(l)),
+                            };
+                            let prof = r
+                                .profiles
+                                .iter()
+                                .map(|g| {
+                                    format!(
+                                        "<{}>",
+                                        g.iter()
+                                            .map(|p| match p {
+                                                BuildProfile::Enabled(s) => format!("E{}", es(s)),
+                                                BuildProfile::Disabled(s) => format!("D{}", es(s)),
+                                            })
+                                            .collect::<Vec<_>>()
+                                            .join(",")
+                                    )
+                                })
+                                .collect::<Vec<_>>()
+                                .join("/");
+                            format!(
+                                "name={};aq={};ver={};arch={};prof={}",
+                                es(&r.name),
+                                eopt(r.archqual.as_deref()),
+                                ver,
+                                arch,
+                                prof
+                            )
+                        })
+                        .collect::<Vec<_>>()
+                        .join("|"),
+                );
+                s.push('}');
+            }
+            s.push(']');
+            s
+        }
+    }
+}
+
 pub fn view_root(r: &Relations) -> String {
     let subst: Vec<String> = r.substvars().collect();
     let entries: Vec<Entry> = r.entries().collect();
@@ -177,7 +289,9 @@ pub const TOKENS: [&str; 18] = [
     "ab", ":", "|", ",", "(", ")", "[", "]", "!", "<", ">", "=", "$", "{", "}", " \t", "\n", "@",
 ];
 /// contexts that put the parser inside each nested construct before the enumerated tail starts
-pub const PREFIXES: [&str; 22] = [
+pub const PREFIXES: [&str; 24] = [
+    "a (>= 1:",
+    "a (>= 1:2",
     "a ",
     "a:",
     "a: b",
@@ -332,7 +446,7 @@ pub fn gen_c09_texts(tier: &str, seed: u64) -> Vec<String> {
     }
     // sequences of 5 (thorough: 6) tokens over the sub-pools that drive one construct each
     let pools: [&[&str]; 6] = [
-        &["a", " ", "(", ")", ">", "="], // version / constraint
+        &["a", " ", "(", ")", ">", "=", ":"], // version / constraint / epoch
         &["a", " ", "[", "]", "!", ","], // architectures
         &["a", " ", "<", ">", "!", "|"], // profiles
         &["a", " ", ":", "|", ",", "@"], // archqual, separators, junk
@@ -396,6 +510,24 @@ pub fn generate_c09(tier: &str, seed: u64, out: &mut Out) {
     }
 }
 
+/// lossy reader + printer over the rendered C10 fields and the C09 texts (groundwork for C14;
+/// run with `harness gen C14pre <tier> <seed>`)
+pub fn generate_c14pre(tier: &str, seed: u64, out: &mut Out) {
+    let mut tmp = Out::new();
+    generate_c10(tier, seed, &mut tmp);
+    for l in tmp.lines {
+        if let Some(h) = l.strip_prefix("rel.field\t") {
+            if let Some(f) = crate::relspec::FieldA::dec(h) {
+                out.req("rel.lprint", &[es(&f.text())]);
+            }
+        }
+    }
+    for t in gen_c09_texts("quick", seed) {
+        out.req("rel.lprint", &[es(&t)]);
+        out.req("rel.lossy", &[es(&t)]);
+    }
+}
+
 /// accessor views over the C09 texts, and `debversion::Version::from_str` over its own alphabet
 /// (groundwork for C10; run with `harness gen C10pre <tier> <seed>`)
 pub fn generate_c10pre(tier: &str, seed: u64, out: &mut Out) {
@@ -408,6 +540,65 @@ pub fn generate_c10pre(tier: &str, seed: u64, out: &mut Out) {
     }
     for t in ["4294967295:1", "4294967296:1", "00000000001:1", "99999999999999999999:1", "1:-", "1:-1", "1:a-", "a--b", "-a-b"] {
         out.req("rel.version", &[es(t)]);
+    }
+}
+
+/// C10: structured well-formed fields (harness/src/relspec.rs) in every layout
+pub fn generate_c10(tier: &str, seed: u64, out: &mut Out) {
+    use crate::relspec::*;
+    let thorough = tier == "thorough";
+    let mut rng = Rng::new(seed);
+    let layouts = [Layout::Canonical, Layout::Minimal, Layout::Spaces, Layout::Folded];
+    let mut emit = |f: &FieldA, out: &mut Out| out.req("rel.field", &[f.enc()]);
+    // 1. exhaustive: one relation with each subset of optional parts, in every layout and every
+    //    context (alone / before `,` / before and after `|` / with trailing whitespace)
+    let reps = if thorough { 6 } else { 1 };
+    for _ in 0..reps {
+        for &layout in &layouts {
+            for wild in [false, true] {
+                if wild && (layout == Layout::Canonical || layout == Layout::Minimal) && !thorough {
+                    // the finding constructs that do not depend on whitespace are covered once
+                }
+                let pol = Policy { layout, wild };
+                for archqual in [false, true] {
+                    for (version, epoch) in [(false, false), (true, false), (true, true)] {
+                        for archs in [0usize, 1, 2] {
+                            for groups in [0usize, 1, 2] {
+                                // clean cases outnumber wild ones 3:1 (wild ones lie in trigger regions)
+                                let n = if wild { 1 } else { 3 };
+                                for _ in 0..n {
+                                    let r = make_rel(&mut rng, &pol, &Parts { archqual, version, epoch, archs, groups });
+                                    for f in contexts(&mut rng, &pol, &r) {
+                                        emit(&f, out);
+                                    }
+                                }
+                            }
+                        }
+                    }
+                }
+            }
+        }
+    }
+    // 2. seeded random fields x layout policies
+    let n = if thorough { 930_000 } else { 18_000 };
+    for i in 0..n {
+        let pol = Policy { layout: layouts[i % 4], wild: rng.chance(22) };
+        let sv = rng.chance(35);
+        let f = random_field(&mut rng, &pol, sv);
+        emit(&f, out);
+    }
+    // 3. the degenerate fields
+    for f in [
+        FieldA { segs: vec![] },
+        FieldA { segs: vec![Seg { pre: " ".to_string(), entry: EntryA::Empty, post: String::new() }] },
+        FieldA {
+            segs: vec![
+                Seg { pre: String::new(), entry: EntryA::Empty, post: String::new() },
+                Seg { pre: String::new(), entry: EntryA::Empty, post: String::new() },
+            ],
+        },
+    ] {
+        emit(&f, out);
     }
 }
 
